@@ -136,7 +136,8 @@ def tlc(module, cfg=None, env=None, workers=8, simulate=None, depth=None, timeou
     cfg = cfg or (module + ".cfg")
     if simulate:
         workers = 1   # TLC 1.8 -simulate with several workers intermittently fails while evaluating ASSUMEs (observed 3 of 4 runs)
-    metadir = metadir or os.path.join(WORK, "tlc", "%s-%d-%d" % (module, os.getpid(), int(time.time() * 1000) % 100000000))
+    import uuid
+    metadir = metadir or os.path.join(WORK, "tlc", "%s-%d-%s" % (module, os.getpid(), uuid.uuid4().hex[:12]))
     os.makedirs(metadir, exist_ok=True)
     jopts = "-Xss%s" % xss
     if deque:
